@@ -453,7 +453,11 @@ func (p *PHYPayload) DecryptFRMPayload(key AES128Key) error {
 	// the FRMPayload contains MAC commands, which we need to unmarshal
 	var err error
 	if macPL.FPort != nil && *macPL.FPort == 0 && len(macPL.FRMPayload) != 0 {
-		macPL.FRMPayload, err = decodeDataPayloadToMACCommands(p.isUplink(), macPL.FRMPayload)
+		var cmds []Payload
+		cmds, err = decodeDataPayloadToMACCommands(p.isUplink(), macPL.FRMPayload)
+		if err == nil {
+			macPL.FRMPayload = cmds
+		}
 	}
 
 	return err
@@ -472,9 +476,13 @@ func (p *PHYPayload) DecodeFRMPayloadToMACCommands() error {
 		return nil
 	}
 
-	var err error
-	macPL.FRMPayload, err = decodeDataPayloadToMACCommands(p.isUplink(), macPL.FRMPayload)
-	return err
+	cmds, err := decodeDataPayloadToMACCommands(p.isUplink(), macPL.FRMPayload)
+	if err != nil {
+		// the FRMPayload is left as it was
+		return err
+	}
+	macPL.FRMPayload = cmds
+	return nil
 }
 
 // DecodeFOptsToMACCommands decodes the (decrypted) FOpts bytes into
@@ -489,9 +497,13 @@ func (p *PHYPayload) DecodeFOptsToMACCommands() error {
 		return nil
 	}
 
-	var err error
-	macPL.FHDR.FOpts, err = decodeDataPayloadToMACCommands(p.isUplink(), macPL.FHDR.FOpts)
-	return err
+	cmds, err := decodeDataPayloadToMACCommands(p.isUplink(), macPL.FHDR.FOpts)
+	if err != nil {
+		// the FOpts are left as they were
+		return err
+	}
+	macPL.FHDR.FOpts = cmds
+	return nil
 }
 
 // MarshalBinary marshals the object in binary form.
